@@ -522,10 +522,11 @@ PROPS = {
         "assumptions": ["K >= 4 (bucket reads bases 0..3), memory_size >= 1"],
     },
     "C01": {
-        "lean_modules": ["Dbg.Props.C01"],
+        "lean_modules": ["Dbg.Props.C01", "Dbg.Props.C01b"],
         "theorems": ["Compress.C01_steps_recorded", "Compress.C01_from_reads", "Compress.C01_no_exts", "Compress.C01_partition", "Compress.C01_node_assembly", "Compress.C01_nodes_are_id_paths", "Compress.C01_ids_partition",
-                     "Compress.C01_walk_no_panic", "Compress.compress_components_concrete", "Walk.compress_components"],
-        "partial": ["the no-exts entry point is proved at table level (C01_no_exts: the discovered extension table is well-formed and reciprocal, so C01 applies); the from-slice wrapper and the glue that builds the hash map are tied by correspondence only"],
+                     "Compress.C01_walk_no_panic", "Compress.compress_components_concrete", "Walk.compress_components",
+                     "Compress.C01_hash_index", "Compress.C01_partition_hashed", "Boom.createTable_spec", "Boom.keyId_exact"],
+        "partial": ["the no-exts entry point is proved at table level (C01_no_exts: the discovered extension table is well-formed and reciprocal, so C01 applies); the hash-map glue is proved above Mphf (C01_hash_index: for every minimal perfect hash on the keys create_map terminates with a permutation of the rows and get_key_id is the model's positional lookup, for present and absent k-mers; C01_partition_hashed); that Mphf::new returns a minimal perfect hash, and the from-slice wrapper, are tied by correspondence only"],
         "n_quick": 3000, "n_thorough": 200000,
         "nontrivial": _c01_nontrivial, "tags": _c01_tags, "shrink": _table_shrink,
         "rule": _C01_RULE,
